@@ -191,7 +191,10 @@ impl Quantity {
 
         // Heuristic 3
         let removed_exponent = |u: &UnitFactor| {
-            let base_unit = u.unit_id.base_unit_and_factor().0;
+            // Canonicalize, so that all units of a group (which have parallel base unit
+            // representations) use the same base unit as their reference, independent of
+            // the order of factors in their definitions.
+            let base_unit = u.unit_id.base_unit_and_factor().0.canonicalized();
             if let Some(first_factor) = base_unit.into_iter().next() {
                 first_factor.exponent
             } else {
